@@ -330,6 +330,21 @@ class Engine(object):
             return mk_bool(ex.ctx.reg.pow2(zint(v)))
         self.prims["is_pow2"] = GhostPrim("is_pow2", is_pow2)
 
+        def is_ascii(ex, s):
+            """every character of the text is below 128"""
+            if isinstance(s, str):
+                return all(ord(c) < 128 for c in s)
+            return mk_bool(self.all_ascii(as_sstr(s)))
+        self.prims["is_ascii"] = GhostPrim("is_ascii", is_ascii)
+
+        def ascii_bytes(ex, s):
+            """the bytes an ASCII text encodes to: the same code points, as bytes"""
+            if isinstance(s, str):
+                return from_py(s.encode("ascii"))
+            s = as_sstr(s)
+            return SStr(s.length, s.arr, s.off, is_bytes=True, maxlen=s.maxlen)
+        self.prims["ascii_bytes"] = GhostPrim("ascii_bytes", ascii_bytes)
+
         def is_integral(ex, v):
             if isinstance(v, (int, SInt, SBool)):
                 return True
@@ -739,9 +754,10 @@ class Engine(object):
         fmt = args[0]
         if isinstance(fmt, SStr):
             fmt = try_concrete_str(fmt)
-        if not isinstance(fmt, str) or not fmt.endswith("B") or not fmt[:-1].isdigit():
+        import re as _re
+        if not isinstance(fmt, str) or not _re.fullmatch(r"[<>=!@]?(\d*B)+", fmt):
             raise Unsupported("struct.pack format %r" % (fmt,))
-        n = int(fmt[:-1])
+        n = sum(int(k) if k else 1 for k in _re.findall(r"(\d*)B", fmt))
         vals = list(args[1:])
         if len(vals) != n:
             raise Raised(self.module("struct").error, line, implicit=True)
@@ -775,8 +791,22 @@ class Engine(object):
                 return "%dB" % cv
         return None
 
+    def all_ascii(self, s):
+        """z3 Bool: every code point of s is in 0..127 (explicit for a known length; for an unknown length an
+        uninterpreted predicate of the array segment, which is all a contract needs to name the condition)"""
+        n = s.known_len()
+        if n is not None:
+            return z3.And([z3.And(s.at(i) >= 0, s.at(i) < 128) for i in range(n)]) if n else z3.BoolVal(True)
+        f = self.__dict__.setdefault("_all_ascii_uf", z3.Function("all_ascii", ARR, INT, INT, z3.BoolSort()))
+        return f(s.arr, z3.simplify(s.off), z3.simplify(s.length))
+
     def str_method(self, ex, s, name, args, kwargs, line):
         n = s.known_len()
+        if name == "encode" and not s.is_bytes and not kwargs and len(args) == 1 and \
+                (args[0] in ("ascii", "us-ascii", "ASCII") if isinstance(args[0], str) else False):
+            if not ex.ctx.branch(self.all_ascii(s)):
+                raise Raised(UnicodeEncodeError, line, implicit=True)
+            return SStr(s.length, s.arr, s.off, is_bytes=True, maxlen=s.maxlen)
         if name in ("upper", "lower") and n is not None:
             arr = z3.K(INT, z3.IntVal(0))
             for i in range(n):
